@@ -297,8 +297,11 @@ class ChainGen:
             collide = bool(pairs) and rng.random() < self.w['p_collide']
         if collide and pairs:
             # use one half of a colliding pair; a later block uses the other half
+            if not hasattr(self, 'active_pairs'):
+                # few pairs per chain so that both halves of a pair really meet
+                self.active_pairs = [pairs[rng.randrange(len(pairs))] for _ in range(3)]
             for _ in range(8):
-                a, b = pairs[rng.randrange(len(pairs))]
+                a, b = self.active_pairs[rng.randrange(len(self.active_pairs))]
                 for k in (a, b):
                     cand = grind_coinbase(k)
                     if cand.hash not in txids:
